@@ -20,7 +20,7 @@ LEVEL_TEXT = ("Crash-point enumeration per sampled model: every step of the refe
               "memory and through a JSON restart; models themselves are sampled by seed.")
 LEVEL_NOTE = "Trusted: dump comparison; the set of models is a seeded sample (the pause points per model are enumerated in the thorough tier)."
 PROBES = ["pause_in_memory", "pause_via_json", "pause_chain", "pause_at_0", "pause_at_end", "pause_with_working_task",
-          "pause_on_absence_step", "pause_after_finish", "reference_cut_off_by_limit", "with_subproject_task", "with_unit_time"]
+          "pause_on_absence_step", "pause_after_finish", "reference_cut_off_by_limit", "with_subproject_task", "with_unit_time", "state_after_resume_compared"]
 
 
 def budget(tier):
@@ -100,7 +100,7 @@ def paused_run(spec, pauses, via):
     model, cfg, ranks = spec["model"], spec["cfg"], spec.get("ranks")
     b = B.build(model, ranks)
     p = b.project
-    info = {"working": False, "absence_step": False}
+    info = {"working": False, "absence_step": False, "resume_snaps": []}
     first = True
     out = None
     for k in pauses:
@@ -111,7 +111,9 @@ def paused_run(spec, pauses, via):
             c["init_log"] = False
             if spec.get("absence_alias"):
                 c["_absence_obj"] = p.absence_time_list
-        rec, out = scen.simulate(p, c, want_snap=False)
+        rec, out = scen.simulate(p, c, want_snap=not first)
+        if not first and rec.steps and not rec.steps[0].synth_updated and rec.steps[0].ph.get("updated") is not None:
+            info["resume_snaps"].append((rec.steps[0].t, rec.steps[0].ph["updated"]))
         first = False
         if not out.ok:
             return p, out, info
@@ -133,7 +135,9 @@ def paused_run(spec, pauses, via):
         c["init_log"] = False
         if spec.get("absence_alias"):
             c["_absence_obj"] = p.absence_time_list  # simulate(absence_time_list=project.absence_time_list, ...)
-    rec, out = scen.simulate(p, c, want_snap=False)
+    rec, out = scen.simulate(p, c, want_snap=not first)
+    if not first and rec.steps and not rec.steps[0].synth_updated and rec.steps[0].ph.get("updated") is not None:
+        info["resume_snaps"].append((rec.steps[0].t, rec.steps[0].ph["updated"]))
     return p, out, info
 
 
@@ -145,7 +149,8 @@ def run(spec):
     if any(t.get("sub") for t in spec["model"]["tasks"]):
         res.count("with_subproject_task")
     scen.setup_run(spec.get("seed", 0))
-    ref = scen.run_forward(spec["model"], spec.get("ranks"), spec["cfg"], want_snap=False)
+    ref = scen.run_forward(spec["model"], spec.get("ranks"), spec["cfg"], want_snap=True)
+    ref_updated = {s_.t: s_.ph["updated"] for s_ in ref.rec.steps if s_.ph.get("updated") is not None and not s_.synth_updated}
     n = ref.rec.n_recorded
     res.steps = n
     M = spec["cfg"]["max_time"]
@@ -203,6 +208,18 @@ def run(spec):
             nontrivial = True
         if info["absence_step"]:
             res.count("pause_on_absence_step")
+        # the state checks at the start of a step are idempotent: the step the resumed run re-enters starts from the very state the
+        # uninterrupted run had after the update of that step (task states, remaining work, allocations, PERT times, placements)
+        for t_, snap_ in info["resume_snaps"]:
+            if t_ in ref_updated:
+                res.count("state_after_resume_compared")
+                sd = D.first_diff(ref_updated[t_], snap_)
+                if sd is not None:
+                    part = sd[0].strip("/").split("/")[0]
+                    res.add("resume", "C15.state_after_resume_differs.%s.%s" % (via, part),
+                            "pause at %s (%s): after the update of step %s the resumed run is in another state than the uninterrupted run at "
+                            "%s: %r vs %r" % (pauses, via, t_, sd[0], sd[1], sd[2]), t_)
+                    break
         d = full_dump(p, out)
         diff = D.first_diff(dref, d)
         if diff is not None:
